@@ -241,6 +241,10 @@ func c01Small(c *vrep.Ctx) {
 			return
 		}
 		cl := NewClassifier(t)
+		if c.Param("replace", "no") == "yes" {
+			// history: the name first holds another text, which the real document then replaces
+			cl.AddContent("License", "Doc", "license.txt", []byte("cc cc aa bb bb cc aa aa bb cc"))
+		}
 		cl.AddContent("License", "Doc", "license.txt", []byte(strings.Join(doc, " ")))
 		if second == 1 {
 			cl.AddContent("License", "Other", "license.txt", []byte("cc bb aa cc bb aa bb cc aa bb cc"))
